@@ -1182,7 +1182,7 @@ def grid_file(observed):
     cat = " ++ ".join("o%d" % k for k in range(len(chunks)))
     return (CASES_HEADER + defs + body +
             "Definition observed : list gobs := (%s)%%list.\n"
-            "Eval vm_compute in (bad_grid 0 grid_decls observed).\n" % cat)
+            "Eval vm_compute in (bad_grid grid_decls observed).\n" % cat)
 
 
 def is_nontrivial(case, obs):
@@ -1220,7 +1220,34 @@ def violation_of_case(mt, case, shrink=True):
     return v
 
 
+FAMILY_FILES = ["Tunable/Model.v", "Tunable/Proofs.v", "Tunable/Compare.v"]
+
+
+def ensure_built():
+    """compile the family's files when their .vo is missing or stale (they are built by `make` once
+    they are listed in _CoqProject; until then, and after somebody's `make clean`, by hand)."""
+    from . import common
+    log = ""
+    with common.BuildLock():
+        listed = open(os.path.join(common.COQ, "_CoqProject")).read()
+        prev = 0
+        for f in FAMILY_FILES:
+            v = os.path.join(common.THEORIES, f)
+            vo = v + "o"
+            if "theories/" + f in listed:
+                continue
+            if not os.path.exists(vo) or os.path.getmtime(vo) < max(os.path.getmtime(v), prev):
+                rc, out = common.sh("timeout 600 coqc -Q theories %s theories/%s 2>&1" % (common.LOGICAL, f), cwd=common.COQ, timeout=660)
+                log += out
+                if rc != 0:
+                    return False, log
+            prev = os.path.getmtime(vo)
+    return True, log
+
+
 def run(ctx):
+    ok, log = ensure_built()
+    ctx.obligation("make:Tunable family compiles", ok, log[-1500:])
     ctx.assumptions.append(
         "C09: ntcore modelled as a finite map key -> (type, value); type conflicts on an existing topic, values that "
         "do not fit the topic type, unpublishing and the network are ntcore behaviour outside the model; "
